@@ -5,7 +5,7 @@ import anchors
 from core import (BA, call_matches, callee_paths, op_local, op_place, op_const, const_str, taint, closure_sites,
                   upvar_index, place_fields, rvalue_places, field_reads)
 from facts import strip_generics
-from typestate import LockTS, derive_preconditions, LOCK
+from typestate import LockTS, derive_preconditions, LOCK, lockts_with_lends
 from rules import common
 
 EXPLANATION = (
@@ -74,7 +74,7 @@ def run(ctx):
         # Ready edge on, in this body (LockHandoff)
         ho = LockHandoff.find(prog, S, root, pre) if not newlocks else None
         if ho is None:
-            ts = LockTS(prog, S, [root], preconds=pre)
+            ts, _lent = lockts_with_lends(prog, S, [root], pre)
             st = ts.state_at(bb)
             ok = st is not None and st <= {"O"}
             ctx.ob("R6.1", "%s|%s" % (S.key, name), ok, where=ctx.where(S, bb),
@@ -153,11 +153,27 @@ def run(ctx):
             # ownership is established inside the awaited coroutine (its is_owned() loop): in this body the lock is owned
             # from the completion of that await on
             owned_entry = ho.ready
+        owned_entries = [owned_entry] if owned_entry is not None else []
+        if owned_entry is None and ho is None:
+            # ownership established on several paths that join before the construction (`if !lock.is_owned() { wait for it }`):
+            # by typestate, the blocks entered *owned* from a block that could be entered not owned, on the way to the
+            # construction; every one of them starts the region in which the record must be re-read
+            for a in sorted(ba.live):
+                sa_ = ts.state_at(a)
+                if not sa_ or "U" not in sa_:
+                    continue
+                for x in S.succ(a):
+                    sx = ts.state_at(x)
+                    if sx and sx <= {"O"} and ba.path([x], [bb], incl=True) is not None:
+                        owned_entries.append(x)
+            owned_entries = sorted(set(owned_entries))
+            if owned_entries and (ts.state_at(bb) or {"U"}) <= {"O"}:
+                owned_entry = owned_entries[0]
         if ctx.ob("R6.3", "%s|%s|anchors" % (S.key, name), bool(starts) and owned_entry is not None, where=ctx.where(S, bb),
                   detail="is_owned() true edge dominating the construction and the following BuildJob::start call found" if starts and owned_entry is not None
                   else "no is_owned() test dominates the construction / no start call follows"):
             rereads = set(ba.calls(r"state::File::(refresh|from_id)"))
-            p = ba.path([owned_entry], starts, avoid=frozenset(rereads), incl=True)
+            p = ba.path(owned_entries, starts, avoid=frozenset(rereads), incl=True)
             ctx.ob("R6.3", "%s|%s|re-read" % (S.key, name), p is None, where=ctx.where(S, starts[0]),
                    detail="a path from lock ownership to BuildJob::start skips File::refresh/from_id" if p else "record re-read on every path from ownership to start",
                    witness={"path": p[:15] if p else None})
@@ -165,7 +181,7 @@ def run(ctx):
             sf_alias, _, _ = backward_direct(S, op_local(sf_op))
             ok_rr = False
             for rb in rereads:
-                if not (owned_entry in ba.dom.get(rb, ()) and ba.dominates(rb, bb)):
+                if not ((owned_entry in ba.dom.get(rb, ()) or len(owned_entries) > 1) and ba.dominates(rb, bb)):
                     continue
                 t = S.blocks[rb]["term"]
                 if call_matches(t, r"state::File::refresh"):
